@@ -405,8 +405,9 @@ class Out:
 
 
 class Generator:
-    def __init__(self, unit_path):
+    def __init__(self, unit_path, exclude=()):
         self.unit_path = unit_path
+        self.exclude = set(exclude)   # functions Verus cannot take in their current shape: emitted as contract only
         self.unit = os.path.splitext(os.path.basename(unit_path))[0]
         self.out = Out()
         self.sources = {}
@@ -517,6 +518,9 @@ class Generator:
 
     # ---- functions -----------------------------------------------------
     def emit_fn(self, fn: FnSpec):
+        if fn.qual in self.exclude or fn.opts.get('as', '') in self.exclude:
+            fn.mode = 'external_body'
+            fn.excluded = True
         src = self.source(fn.src)
         loc = src.find_fn(fn.owner, fn.name, fn.opts.get('trait'))
         self.record_item(src, 'fn', fn.qual, loc['start'], loc['body_close'] + 1)
@@ -581,7 +585,7 @@ class Generator:
         ens = fn.ensures + (known['ensures'] if known else [])
         emit_clauses('requires', req)
         emit_clauses('ensures', ens)
-        rec = dict(qual=fn.qual, emit_name=emit_name, known=kid, props=fn.props, safety=fn.safety,
+        rec = dict(qual=fn.qual, emit_name=emit_name, known=kid, props=fn.props, safety=fn.safety, excluded=getattr(fn, 'excluded', False),
                    src=fn.src, start_line=start_line, clauses=clauses, mode=fn.mode, fnspec=fn,
                    src_lines=[src.text.count('\n', 0, loc['start']) + 1, src.text.count('\n', 0, loc['body_close']) + 1])
         if fn.mode == 'external_body':
